@@ -2,6 +2,7 @@ import PQ.Model.Bytes
 import PQ.Model.Bitpack
 import PQ.Model.Rle
 import PQ.Model.Text
+import PQ.Model.GenLevels
 /-!
 Line-protocol driver: one operation per line on stdin, one canonical line out.
 Unknown operation → `bad-op` (never a default).
@@ -155,6 +156,13 @@ def step (line : String) : String :=
              s!"0:{p.uncompressedLen}:{p.compressedLen}:{p.numValues};0;3;3;{showStatsFields p.stats}"
            if hs.isEmpty then "-" else ",".intercalate hs)
     | _, _ => "bad-op"
+  | ["gen-levels", rts] =>
+    -- the generator's level arithmetic on one chain (r = required, o = optional, m = repeated)
+    let l := (if rts = "-" then [] else rts.toList).mapM fun c =>
+      if c = 'r' then some Rep.req else if c = 'o' then some Rep.opt else if c = 'm' then some Rep.rpt else none
+    match l with
+    | some l => PQ.GenLevels.showLevels l
+    | none => "bad-op"
   | ["parse-struct", typ, decls] =>
     let priv := if PQ.Gen.Facts.exportedTest = "IsExported" then Parse.isPrivateUpper else Parse.isPrivateAZ
     "ok {" ++ ",".intercalate ((Parse.parseStruct priv (parseDecls decls) typ).map Parse.showField) ++ "}"
